@@ -14,9 +14,9 @@ Definition field (f : list N) (off n : nat) : N := le_val (firstn n (skipn off f
    (* a read from the zero-filled copy of the file that MmapVec::create_mmap makes: bytes past EOF read 0 *)
 
 (* ------------------------------------------------------------------ MmapVec *)
-Definition MV_MAGIC : N := 5570193308531902787.      (* 0x4D4D41505F564543 "MMAP_VEC" *)
+Definition MV_MAGIC : N := 5570180127579850051.      (* 0x4D4D41505F564543 "MMAP_VEC" *)
 Definition MV_VERSION : N := 1.
-Definition MV_HEADER : N := 64.                       (* size_of::<MmapVecHeader>() *)
+Definition MV_HEADER : N := 80.                       (* size_of::<MmapVecHeader>() *)
 
 Record mv_hdr := { h_magic : N; h_version : N; h_es : N; h_len : N; h_cap : N }.
 Definition mv_parse (f : list N) : mv_hdr :=
@@ -38,21 +38,21 @@ Fixpoint read_elems (es : nat) (data : list N) (n : nat) : list N :=
 Definition mv_open (es : N) (f : list N) : option (N * list N) :=
   let h := mv_parse f in
   if mv_hdr_ok es h && mv_len_ok es h (nlen f)
-  then Some (h_len h, read_elems (N.to_nat es) (skipn 64 f) (N.to_nat (h_len h)))
+  then Some (h_len h, read_elems (N.to_nat es) (skipn 80 f) (N.to_nat (h_len h)))
   else None.
 (* the pinned tree's open: header checks only *)
 Definition mv_open_v0 (es : N) (f : list N) : option (N * list N) :=
   let h := mv_parse f in
   if mv_hdr_ok es h
-  then Some (h_len h, read_elems (N.to_nat es) (skipn 64 f) (N.to_nat (h_len h)))
+  then Some (h_len h, read_elems (N.to_nat es) (skipn 80 f) (N.to_nat (h_len h)))
   else None.
-(* bytes of the file that get(i) touches, i < len: [64 + i*es, 64 + (i+1)*es) *)
+(* bytes of the file that get(i) touches, i < len: [80 + i*es, 80 + (i+1)*es) *)
 Definition mv_touched_end (es len : N) : N := MV_HEADER + len * es.
 
 (* what sync() writes: header, the elements, the unused capacity *)
 Definition mv_header_bytes (es len cap : N) : list N :=
   le_bytes 8 MV_MAGIC ++ le_bytes 4 MV_VERSION ++ le_bytes 4 es ++ le_bytes 8 len ++ le_bytes 8 cap
-  ++ zeros 32.
+  ++ zeros 48.
 Definition mv_data_bytes (es : nat) (xs : list N) : list N := flat_map (le_bytes es) xs.
 Definition mv_image (es : N) (xs : list N) (cap : N) (tail : list N) : list N :=
   mv_header_bytes es (nlen xs) cap ++ mv_data_bytes (N.to_nat es) xs ++ tail.
